@@ -31,4 +31,8 @@ def obligations(tier):
             obs.append(Ob('utf8.%s.N%d' % (nm, n), 'C12/utf8.c', units=U, models=MODELS, remove=RM, defines={'N': n, 'MODE': mode}, unwind=n + 3, unwindset=['m_bestfit.0:6', 'bestfit_codepoint.0:6', 'htp_utf8_decode_path_inplace.0:%d' % (2 * n + 2)], tier=t, timeout=to, mem_gb=10,
                           kfs=(['C12-validate-halffull-range'] if mode == 0 else []),
                           statement='UTF-8 %s of the path == reference decoder: bytes, VALID/INVALID/OVERLONG/HALF_FULL flags' % nm, bounds='path <= %d bytes, all byte values' % n))
+    for w in range(18):
+        obs.append(Ob('setters.%d' % w, 'C12/setters.c', units=['htp_config.c', 'htp_hooks.c', 'htp_list.c', 'bstr.c'], models=['@libc_model.c'], remove=['htp_log'], defines={'WHICH': w}, unwind=5, unwindset=['memcmp.0:400', 'harness.0:400'], tier='quick', timeout=300, mem_gb=4, cost=3,
+                      statement='decoder setter #%d writes exactly its own switch in the named context (all contexts for HTP_DECODER_DEFAULTS) and nothing else' % w,
+                      bounds='context 0..3 (incl. the out-of-range value), value -1..500, previous decoder configuration: all bytes symbolic'))
     return obs
